@@ -19,6 +19,10 @@ CLAIMS = {
          "The independence sentence of the property is decided completely: the closure of Eval reads only Pieces, Colors, SquaresToPiece, STM, FiftyCnt of the board, stores to no board field, coefficient or package variable, reads only init-time-immutable tables and reaches no nondeterminism source. Colour symmetry is decided only where the two colours are spelled out side by side (sibling mirror rule); symmetry of shared helper code is not decided.",
          "Trusts go/ssa + VTA (over-approximate dynamic calls); no reflect/unsafe in the closure (checked).",
          "DESIGN.md §3 C17"),
+ "C03": ("effect sets (make/undo write-set mirror, single writer of the hash history) + constant evaluation of the Reverse token layout + reaching-store analysis (save-before-clobber) + getter/setter sibling pairing + post-dominance (one push/pop per call) + PAIR typestate at consumers",
+         "Structural necessary conditions decided over all paths of MakeMove/UndoMove/MakeNullMove/UndoNullMove and their consumers: every field changed by a make is restored by its undo, from a token field that cannot overlap another, that was filled before the field was overwritten and is read back in the matching form; the hash history is pushed/popped exactly once per call; castling and promotion are mirrored. A violation implies a move whose make+undo does not return the identical position. Snapshot equality for concrete positions is not decided.",
+         "Trusts go/ssa and go/types constant evaluation; token setters are assumed to be called with values inside the declared range (widths are checked against the type ranges).",
+         "DESIGN.md §3 C03"),
 }
 
 NOT_YET = "no static rule of DESIGN.md §3 for this property is built in this revision yet; not claimed"
